@@ -156,6 +156,11 @@ func cmdCheck(args []string) int {
 		}
 		return 2
 	}
+	for _, u := range eng.cs.Unopaque {
+		if hasProp(u.Props, *prop) {
+			delete(specialLeaf, u.Type)
+		}
+	}
 	tLoad := time.Since(t0).Seconds()
 
 	var reports []*FuncReport
